@@ -54,6 +54,9 @@ def generate(streams: Streams, tier: str, index: int) -> dict:
     if index < world.lattice_size(nf):
         # exhaustive part: every history of the small 1D lattice space, every configuration
         return {"history": world.lattice_history(index, nf), "configs": list(world.LATTICE_CONFIGS)}
+    if index == world.lattice_size(nf):
+        # one fixed history on a cylindrical grid that is periodic along z (see known findings)
+        return {"probe": "cyl_periodic_z"}
     rng = streams["workload"]
     small = rng.random() < 0.25
     hist = world.random_history(rng, allow_overlap=False, small_motion=small,
@@ -108,7 +111,43 @@ def links_from_tracks(tracks, frame_keys):
     return links
 
 
+def _execute_cyl_probe() -> Outcome:
+    """An on-axis droplet that moves across the periodic z boundary of a cylindrical grid:
+    z = 1 -> z = 15.5 in a cylinder of length 16, radius 2.  Under the periodic metric the two
+    positions are 1.5 apart: the droplets overlap and must form one track (overlap method) and
+    are within a cut-off of 3 (distance method)."""
+    import droplets as dr
+    from pde import CylindricalSymGrid
+
+    log, cnt, V = EventLog(), Counter(), []
+    grid = CylindricalSymGrid(8, [0, 16], [8, 16], periodic_z=True)
+    frames = [[0.0, 0.0, 1.0], [0.0, 0.0, 15.5]]
+    for method, kw in (("overlap", {}), ("distance", {"max_dist": 3.0})):
+        etc = dr.EmulsionTimeCourse([dr.Emulsion([dr.SphericalDroplet(p, 2.0)]) for p in frames],
+                                    times=[0, 1])
+        try:
+            tracks = dr.DropletTrackList.from_emulsion_time_course(etc, method=method, grid=grid, **kw)
+        except Exception as exc:
+            log.add("cyl_probe_raised", exc=SutError(exc).text)
+            cnt.inc("probe.tracking_raised")
+            continue
+        shape = sorted(len(t) for t in tracks)
+        log.add("cyl_probe", method=method, tracks=shape)
+        cnt.inc("cyl_probe_calls")
+        if shape != [2]:
+            V.append(Violation(
+                "C07.O3" if method == "overlap" else "C07.O5",
+                f"periodic cylindrical grid: a droplet moving from z=1 to z=15.5 (1.5 apart across "
+                f"the periodic boundary of a cylinder of length 16) was not followed by "
+                f"{method} matching: track lengths {shape}",
+                {"kind": "cyl_periodic_z", "method": method, "grid": "True"}))
+    return Outcome(digest=log.digest(), violations=V, counters=cnt, events=log.count,
+                   log_head=log.head, coverage_keys=["('cyl_periodic_z',)"])
+
+
 def execute(case: dict) -> Outcome:
+    if case.get("probe") == "cyl_periodic_z":
+        return _execute_cyl_probe()
     log = EventLog()
     cnt = Counter()
     violations: list[Violation] = []
@@ -350,4 +389,14 @@ def evidence_extra(records) -> dict:
             "coverage_cells_list": sorted(inter)[:40]}
 
 
-from .c06 import describe, shrink  # noqa: E402,F401  (same case structure)
+from .c06 import describe as _describe06, shrink as _shrink06  # noqa: E402  (same case structure)
+
+
+def describe(case: dict) -> dict:
+    return dict(case) if "probe" in case else _describe06(case)
+
+
+def shrink(case: dict):
+    if "probe" in case:
+        return iter(())
+    return _shrink06(case)
